@@ -13,7 +13,7 @@ From Coq Require Import Reals List Arith ZArith Bool.
 From Compute Require Import Base.Ops Base.ListMat Model.Reduce Model.MatMul Model.SolveInst.
 From Coq Require Import Permutation.
 From Compute Require Import Generated.glm_families Model.GLM Spec.GLM Proofs.C06_base Proofs.C06 Proofs.C06_infer Proofs.C06_perm
-  Proofs.C06_compose Proofs.C06_weighted Proofs.C06_replicate.
+  Proofs.C06_compose Proofs.C06_weighted Proofs.C06_replicate Proofs.C06_fitperm.
 From Compute Require Spec.Factor Spec.Solve.
 Import ListNotations.
 Open Scope R_scope.
@@ -548,3 +548,58 @@ Theorem C06_frequency_weights_gradient_information :
     (forall i j, (i < list_sum k)%nat -> (j < p)%nat ->
        X (replicate_rows x p k) p i j = X x p (nth i (rep_index k) 0%nat) j).
 Proof. exact frequency_weights_gradient_information. Qed.
+
+(** ** the whole fit is invariant under a permutation of the observations (proofs in Proofs/C06_fitperm.v)
+    Rows of the design, responses, prior weights and offsets permuted together ([permute], [permute_rows] of
+    C06_perm.v: observation i of the permuted data is observation sigma_i of the original data).  For every
+    family, iteration budget, ridge penalty, tolerance, every (abstract) inner solver, weights / offsets present
+    or absent, and also when resuming from any state: the permuted problem returns the SAME result, the same
+    [Some] record (Ok/Err flag, coefficients, deviance, information matrix, n, p) or [None] (panic) alike.
+    This lifts C06_row_permutation_invariant through the linear predictor, the family tables, the Newton system,
+    the (weighted, penalised) deviance, the scoring loop and the entry checks of [fit].  No positivity side
+    condition: without observations or without columns both calls panic.  The length conditions on the weights and
+    offsets are necessary (a permuted array always has length n). *)
+Theorem C06_fit_row_permutation_invariant :
+  forall (solve : list R -> list R -> option (list R)) (f : family) (alpha tol : R) (w off : option (list R))
+         (x y : list R) (n p : nat) (sigma : list nat) (max_iter : nat) (start : option (list R * R)),
+    Permutation sigma (seq 0 n) -> length x = (n * p)%nat -> length y = n ->
+    (forall wv, w = Some wv -> length wv = n) -> (forall o, off = Some o -> length o = n) ->
+    fit_from RO solve f alpha tol (option_map (fun v => permute v sigma) w) (option_map (fun v => permute v sigma) off)
+             (permute_rows x p sigma) (permute y sigma) max_iter start
+    = fit_from RO solve f alpha tol w off x y max_iter start.
+Proof. exact fit_row_permutation_invariant. Qed.
+
+(** [fit] itself (the loop started from the intercept-only coefficients) *)
+Theorem C06_fit_row_permutation_invariant_fit :
+  forall (solve : list R -> list R -> option (list R)) (f : family) (alpha tol : R) (w off : option (list R))
+         (x y : list R) (n p : nat) (sigma : list nat) (max_iter : nat),
+    Permutation sigma (seq 0 n) -> length x = (n * p)%nat -> length y = n ->
+    (forall wv, w = Some wv -> length wv = n) -> (forall o, off = Some o -> length o = n) ->
+    fit RO solve f alpha tol (option_map (fun v => permute v sigma) w) (option_map (fun v => permute v sigma) off)
+        (permute_rows x p sigma) (permute y sigma) max_iter
+    = fit RO solve f alpha tol w off x y max_iter.
+Proof. exact fit_row_permutation_invariant_fit. Qed.
+
+(** composed with C01: the inner solver is the model of the crate's own [solve] *)
+Theorem C06_fit_row_permutation_invariant_composed :
+  forall (f : family) (alpha tol : R) (w off : option (list R))
+         (x y : list R) (n p : nat) (sigma : list nat) (max_iter : nat),
+    Permutation sigma (seq 0 n) -> length x = (n * p)%nat -> length y = n ->
+    (forall wv, w = Some wv -> length wv = n) -> (forall o, off = Some o -> length o = n) ->
+    fit RO (slice_solve RO) f alpha tol (option_map (fun v => permute v sigma) w)
+        (option_map (fun v => permute v sigma) off) (permute_rows x p sigma) (permute y sigma) max_iter
+    = fit RO (slice_solve RO) f alpha tol w off x y max_iter.
+Proof. exact fit_row_permutation_invariant_composed. Qed.
+
+(** the hypotheses are satisfiable on a non-trivial instance: 3 observations, 2 columns, weights and offsets
+    present, a 3-cycle of the rows; the permuted arrays written out *)
+Theorem C06_fit_row_permutation_example :
+  Permutation [2; 0; 1]%nat (seq 0 3) /\ length [1; 0; 1; 1; 1; 2] = (3 * 2)%nat /\ length [0; 1; 3] = 3%nat /\
+  (forall wv, Some [1; 2; 1] = Some wv -> length wv = 3%nat) /\
+  (forall o, Some [0; 0; 1] = Some o -> length o = 3%nat) /\
+  permute_rows [1; 0; 1; 1; 1; 2] 2 [2; 0; 1]%nat = [1; 2; 1; 0; 1; 1] /\
+  permute [0; 1; 3] [2; 0; 1]%nat = [3; 0; 1] /\
+  forall solve f alpha tol max_iter start,
+    fit_from RO solve f alpha tol (Some [1; 1; 2]) (Some [1; 0; 0]) [1; 2; 1; 0; 1; 1] [3; 0; 1] max_iter start
+    = fit_from RO solve f alpha tol (Some [1; 2; 1]) (Some [0; 0; 1]) [1; 0; 1; 1; 1; 2] [0; 1; 3] max_iter start.
+Proof. exact fit_row_permutation_example. Qed.
